@@ -122,28 +122,26 @@ example : let l : Listing := { current := [1, 2], merged := [0] }
     (∀ v, v ∈ l.current ++ l.merged → v ∈ [0, 1] ∨ v ∈ [2]) := by decide
 
 /-- **a version created at or after the cutoff is never removed**, whatever the shape of the
-    history (forks, merges, several writers), provided a version is created after the versions it
-    is made from — which holds since versions are dated when they are committed
-    (`versionsDatedAtCommit`; with the connection's open time, F52, a child could carry the same
-    time as its parent, or an older one) -/
+    history (forks, merges, several writers) and whatever times its successors carry — a
+    successor may well be dated before the version it supersedes (the merge version of an open is
+    dated before the listing it merges; clocks differ): the version's own creation time is
+    checked (`vacuumChecksOwnAge`, F70) -/
 theorem created_at_or_after_cutoff_retained (g : VGraph) (cutoff : Int) (v : Nat)
-    (hmono : ∀ c p, c ∈ g.versions → p ∈ g.parents c → g.created p < g.created c)
     (hv : cutoff ≤ g.created v) : removed F g cutoff v = false := by
-  have hF : F.versionCutoff = "childRoot.Created == nil || childRoot.Created.After(olderThan)" := rfl
+  have hF : F.vacuumChecksOwnAge = true := by decide
   unfold removed
-  cases hc : (g.children v) with
-  | nil => simp
-  | cons c cs =>
-    have hcm : c ∈ g.children v := by rw [hc]; exact List.mem_cons_self
-    have hc2 : c ∈ g.versions ∧ v ∈ g.parents c := by
-      simpa [VGraph.children, List.mem_filter] using hcm
-    have hlt := hmono c v hc2.1 hc2.2
-    have htn : tooNew F (g.created c) cutoff = some true := by
-      unfold tooNew
-      rw [if_pos hF]
-      simp only [Option.some.injEq, decide_eq_true_eq]
-      omega
-    simp [htn]
+  rw [hF]
+  have : decide (g.created v ≥ cutoff) = true := by simpa using hv
+  simp [this]
+
+/-- without the check on the version's own age the guarantee needs creation times that grow
+    along every edge, which they do not always: version 2 (created at 7, after the cutoff 5) is
+    superseded by the merge version 3 that an open dated 4, before its listing -/
+example :
+    let F0 : Facts := { F with vacuumChecksOwnAge := false }
+    let g : VGraph := { versions := [1, 2, 3], parents := fun c => if c = 3 then [2] else if c = 2 then [1] else [],
+                        created := fun v => if v = 2 then 7 else if v = 3 then 4 else 1 }
+    removed F0 g 5 2 = true := by decide
 
 /-- the current version — any version without a successor — is never removed -/
 theorem childless_version_retained (g : VGraph) (cutoff : Int) (v : Nat)
@@ -160,7 +158,8 @@ example :
 
 theorem vacuum_facts :
     F.vacuumKeepsReachable = true ∧ F.vacuumRefusesDirty = true ∧ F.vacuumFinishesRetire = true ∧
-    F.vacuumKeepsListedCurrent = true ∧ F.vacuumWalksBypassCache = true ∧ F.versionsDatedAtCommit = true ∧ F.vacuumRepointsSnapshot = true ∧ F.deletedNodesLeaveCache = true ∧
+    F.vacuumKeepsListedCurrent = true ∧ F.vacuumWalksBypassCache = true ∧ F.versionsDatedAtCommit = true ∧ F.vacuumChecksOwnAge = true ∧
+    F.vacuumSkipsUnreadableListed = true ∧ F.vacuumRepointsSnapshot = true ∧ F.deletedNodesLeaveCache = true ∧
     F.vacuumOrder = ["removeTombstones", "commit", "deleteHistoric"] ∧
     F.deleteOrder = ["current aws.String(s.root.Prefix + l)",
       "nodes aws.String(s.persist.(*persistEncryptor).Prefix + l)",
